@@ -1156,6 +1156,12 @@ func runC20(c *fw.Ctx) {
 		i := i
 		c.Case(func(k *fw.K) {
 			G, P := Gs[i%len(Gs)], Ps[(i/len(Gs))%len(Ps)]
+			// 9 is coprime to the number of shards and to len(Gs): focused runs meet every G, every P and every shard (the quick tier, with
+			// its 160 runs, takes two residues: 35 focused runs, about six per kind of job)
+			focused := i%9 == 8 || (c.Quick() && i%9 == 3)
+			if focused && G > 32 {
+				G = 32 // eight jobs of one kind per goroutine: 32 goroutines already keep every processor inside that kind of job
+			}
 			c20FirstUse(k)
 			k.Case = map[string]any{"goroutines": G, "GOMAXPROCS": P, "run": i}
 			k.Key("G%d/P%d/run%d", G, P, i)
@@ -1172,11 +1178,11 @@ func runC20(c *fw.Ctx) {
 				jobs[g] = c20GenJobs(k.Rng, pool, 6+k.Rng.Intn(10))
 				seeds[g] = k.Rng.Int63()
 			}
-			if i%8 == 7 {
+			if focused {
 				// focused runs: every goroutine does jobs of ONE kind at the same time (with its own seeds), so that the windows of that
 				// kind - a shared loss object rebuilt for another batch shape, shape operations on one shared result, transposes of one
 				// shared tensor, private products - overlap in every run instead of once in a while
-				kind := []string{"shared-loss", "shape-ops-on-a-shared-result", "transpose-shared", "private-matmul", "read-gradient", "layer"}[(i/8)%6]
+				kind := []string{"shared-loss", "shape-ops-on-a-shared-result", "transpose-shared", "private-matmul", "read-gradient", "layer"}[(i/9+i%9)%6]
 				for g := range jobs {
 					jobs[g] = jobs[g][:0]
 					for n := 0; n < 8; n++ {
